@@ -185,12 +185,16 @@ PROPS['C11'] = {
     'level': 'other',
     'explanation': 'Per piece (Verus, unit u_segment, real bodies, ANY piece type satisfying the trait contracts): Segment::integral(knot) keeps the breakpoint, returns the piece\'s '
                    'indefinite integral moved vertically by a constant (antideriv_of) and its value at knot.x is knot.y; Segment::indefinite keeps the breakpoint and the zero constant; '
-                   'Segment::translate / evaluate delegate to the piece. Wiring: '
+                   'Segment::translate / evaluate delegate to the piece. The closures returned by integral_iter_ref and integral_iter are state machines over the running knot: '
+                   'vgen rule 14 extracts each closure body as a step function and Verus proves (step_pre => step_post, ANY piece type): the produced piece is an antiderivative of '
+                   'the input piece through the incoming knot with the same breakpoint, and the outgoing knot is (end, F(end)); lemma_c11_continuous: two consecutive steps agree in '
+                   'value at the interior breakpoint - by induction lists of any length; both iterators have the same step contract. Wiring (initial knot, map: lazy, in order; collect): '
                    'Kani harnesses on the real integral_iter, integral_iter_ref, Piecewise::integral and Piecewise::indefinite with recording pieces '
                    '(STag -> ITag{id,k}, evaluate logs its argument): same number/order of pieces and bit-identical breakpoints, piece 0 anchored at the '
                    'given knot (indefinite: untranslated), piece i anchored at (end_{i-1}, F_{i-1}(end_{i-1})) so adjacent pieces agree at every interior '
                    'breakpoint; by-value and by-reference iterators satisfy the same contract; empty input gives empty output.',
-    'assumptions': [PARAM, FM_NOTE, 'bounded (Kani wiring): number of pieces N <= 4 and N = 20 (integral; thorough also indefinite and the by-value iterator); iterators consumed with collect and with nth',
+    'assumptions': [PARAM, FM_NOTE, 'u_segment: vgen rule 14 (closure body as step function) for integral_iter_ref / integral_iter: the wrapper (`let mut knot = knot0; segments.into_iter().map(..)`) is NOT verified by Verus, pinned by normalised sha256, decided by the Kani harnesses; rule 15 renames the local `int` (reserved in Verus) to `int_`; step_pre includes the data condition that every antiderivative of the piece is defined at its end (polynomials: always, log-polynomials: positive breakpoints)',
+                    'bounded (Kani wiring): number of pieces N <= 4 and N = 20 (integral; thorough also indefinite and the by-value iterator); iterators consumed with collect and with nth',
                     'u_segment models `Translate` with `Evaluate` as a supertrait (in /repo the two traits are independent; every type implementing Translate also implements Evaluate) and states its contract through '
                     'a spec relation shifted_by + trait lemma (value raised by c at every point of the domain); the concrete piece types discharge indefinite/translate/evaluate in C07, C09, C14, C01',
                     'that each concrete piece type integrates to an antiderivative through its knot is C07 (polynomials) and C09 (log-polynomials)',
